@@ -246,6 +246,12 @@ def run_scenario(sc):
                 val = b"r%d|" % rid + b"x" * it.get("size", 0)
                 key = (b"k%d" % rid) if it.get("key", True) else None
                 hdrs = [("h", b"%d" % rid)] if it.get("hdr") else []
+                if it.get("bad") == "str_value":
+                    val = "r%d|" % rid          # no value_serializer: the record builder rejects it (TypeError)
+                elif it.get("bad") == "str_key":
+                    key = "k%d" % rid
+                elif it.get("bad") == "headers":
+                    hdrs = [(b"h", b"x")]       # header keys must be str
                 try:
                     coro = p.send("t", val, key=key, partition=it["p"], timestamp_ms=it.get("ts"), headers=hdrs)
                     if sc.get("stop_after") is not None:
